@@ -189,6 +189,49 @@ def triangles_for(V):
     return tri
 
 
+def target_pose(spec):
+    """4x4 pose that update_pose() must be given to put a collider of this kind where the spec says"""
+    k = spec["kind"]
+    if "T" in spec:
+        return np.array(spec["T"], dtype=float, order="C")
+    T = np.eye(4)
+    if k == "sphere":
+        T[:3, 3] = spec["c"]
+    elif k == "disk":
+        n = np.asarray(spec["n"], float)
+        a = np.eye(3)[int(np.argmin(np.abs(n)))]
+        x = np.cross(a, n); x /= np.linalg.norm(x)
+        y = np.cross(n, x)
+        T[:3, 0] = x; T[:3, 1] = y; T[:3, 2] = n; T[:3, 3] = spec["c"]
+    elif k == "ellipse":
+        A = np.asarray(spec["axes"], float)
+        T[:3, 0] = A[0]; T[:3, 1] = A[1]; T[:3, 2] = np.cross(A[0], A[1]); T[:3, 3] = spec["c"]
+    else:
+        return None
+    return np.ascontiguousarray(T)
+
+
+def build_via_update(spec, rng):
+    """same collider as build(spec), but constructed at another pose and moved there with update_pose
+    (as a BVH does on every update); the pose is handed over either as a fresh array or as one matrix of a
+    C-contiguous stack. Falls back to build() for kinds without update_pose (vertex hulls)."""
+    k = spec["kind"]
+    if k == "margin":
+        from distance3d import colliders as C
+        return C.Margin(build_via_update(spec["base"], rng), float(spec["m"]))
+    T = target_pose(spec)
+    if T is None:
+        return build(spec)
+    G = O.pose(rand_rot(rng), rng.normal(size=3) * 3)
+    col = build(O.moved(spec, G))
+    if rng.random() < 0.5:
+        stack = np.ascontiguousarray(np.stack([np.eye(4), T, O.pose(rand_rot(rng), rng.normal(size=3))]))
+        col.update_pose(stack[1])
+    else:
+        col.update_pose(T)
+    return col
+
+
 def build(spec):
     """library collider from a spec (fresh arrays)."""
     from distance3d import colliders as C
